@@ -75,8 +75,15 @@ fn err_span(e: &xot::ParseError) -> (i64, i64) {
 }
 
 /// One run of one entry point on one input.
+/// Set by parse_job: parse with the manipulation API's text consolidation switched off beforehand (the parser must merge
+/// character data and CDATA sections all the same).
+pub static CONS_OFF: std::sync::atomic::AtomicBool = std::sync::atomic::AtomicBool::new(false);
+
 pub fn run_entry(entry: &str, text: &str, bytes: Option<&[u8]>, idq: &[String]) -> J {
     let mut w = World::new();
+    if CONS_OFF.load(std::sync::atomic::Ordering::Relaxed) {
+        w.xot.set_text_consolidation(false);
+    }
     let mut si: Option<SpanInfo> = None;
     let res: Result<Result<Node, (i64, i64)>, ()> = catch_unwind(AssertUnwindSafe(|| match entry {
         "parse" => w.xot.parse(text).map_err(|e| err_span(&e)),
@@ -169,6 +176,7 @@ pub fn parse_job(job: &J) -> J {
     let mode = job["mode"].as_str().unwrap_or("doc");
     let text = from_cps_lossless(&job["text"]);
     let idq: Vec<String> = job["idq"].as_array().map(|a| a.iter().map(from_cps).collect()).unwrap_or_default();
+    CONS_OFF.store(job["consoff"].as_bool().unwrap_or(false), std::sync::atomic::Ordering::Relaxed);
     let mut runs = vec![];
     let raw: Option<Vec<u8>> = job["bytes"].as_array().map(|a| a.iter().map(|b| b.as_u64().unwrap_or(0) as u8).collect());
     if let Some(raw) = &raw {
